@@ -696,18 +696,18 @@ def install(mon, reach):
     from orquestra.quantum import wavefunction as W
 
     WF = W.Wavefunction
-    reach.watch(WF.__init__, "Wavefunction.__init__")
-    reach.watch(WF._check_normalization, "Wavefunction._check_normalization", markers={
+    reach.watch(getattr(WF, "__init__", None), "Wavefunction.__init__")
+    reach.watch(getattr(WF, "_check_normalization", None), "Wavefunction._check_normalization", markers={
         "numeric-reject": r"Vector does not result in a unit probability",
         "symbolic-check": r"probs_of_ground_entries > 1\.0",
     })
-    reach.watch(WF.__setitem__, "Wavefunction.__setitem__", markers={"rollback": r"=\s*old_val"})
+    reach.watch(getattr(WF, "__setitem__", None), "Wavefunction.__setitem__", markers={"rollback": r"=\s*old_val"})
     reach.watch(WF.bind, "Wavefunction.bind", markers={"rejected": r"Passed map results in a violation"})
     reach.watch(WF.dicke_state, "Wavefunction.dicke_state", markers={"enumerate": r"indices\.append"})
     reach.watch(WF.get_probabilities, "Wavefunction.get_probabilities")
     reach.watch(WF.get_outcome_probs, "Wavefunction.get_outcome_probs")
     reach.watch(W.flip_amplitudes, "flip_amplitudes")
-    reach.watch(W._get_ordering, "_get_ordering")
+    reach.watch(getattr(W, "_get_ordering", None), "_get_ordering")
     reach.watch(W.flip_wavefunction, "flip_wavefunction")
     reach.watch(W.save_wavefunction, "save_wavefunction")
     reach.watch(W.load_wavefunction, "load_wavefunction")
